@@ -50,7 +50,7 @@ func c01Tree(r *rand.Rand, directory bool, overwrite bool, big bool) ([]e2eNode,
 	if !directory {
 		k := 1 + r.Intn(3)
 		for i := 0; i < k; i++ {
-			add(e2eName(r.Intn(7), i), false, "")
+			add(e2eName(r.Intn(11), i), false, "")
 		}
 		if !overwrite && r.Intn(3) == 0 { // same base name twice, from another parent directory
 			add(nodes[0].Rel, false, "other")
@@ -59,21 +59,21 @@ func c01Tree(r *rand.Rand, directory bool, overwrite bool, big bool) ([]e2eNode,
 	}
 	switch r.Intn(5) {
 	case 0: // single file in directory mode
-		add(e2eName(r.Intn(7), 0), false, "")
+		add(e2eName(r.Intn(11), 0), false, "")
 	case 1: // empty directory
 		add("emptydir", true, "")
 	case 2: // nested
 		add("top", true, "")
 		add("top/a.txt", false, "")
 		add("top/sub", true, "")
-		add("top/sub/"+e2eName(r.Intn(7), 1), false, "")
+		add("top/sub/"+e2eName(r.Intn(11), 1), false, "")
 		add("top/sub/deeper/leaf", true, "")
 		add("top/empty.bin", false, "")
 		nodes[len(nodes)-1].Size = 0
 	case 3: // several top-level paths, a directory and files
 		add("d1", true, "")
 		add("d1/x", false, "")
-		add(e2eName(r.Intn(7), 2), false, "")
+		add(e2eName(r.Intn(11), 2), false, "")
 		add("d2", true, "")
 		add("d2/y/z", false, "")
 	default: // same base name twice
